@@ -77,3 +77,18 @@ CHECKS["C04"] = (
     "Trusted: as C01. The DDP-specific masked lists are exercised by C06.",
     "DESIGN.md 3 C04",
 )
+
+CHECKS["C02"] = (
+    "exploration",
+    "runtime monitoring: differential execution of Shampoo next to torch.optim.{SGD,Adagrad,RMSprop,Adam,AdamW} on shared gradient streams; per-block norm/direction monitors after the warm-up",
+    "300 (quick) / 4500 (thorough) twin runs over the five targets, float32/float64, 1-4 parameters of order 0..4 blocked/merged in all ways, warm-up 1..30 steps, coupled/decoupled decay, momentum/Nesterov, presence patterns allowed by the property. (a) After every warm-up step each parameter must agree with the torch.optim twin within 64*2^-24*(|q|+cumulative displacement)*kappa elementwise (max observed ratio ~0.06). (b) From start_preconditioning_step on (runs with momentum=0, decay=0, where the twin's update is exactly the grafted direction for the shared gradient history) every block's ||delta W|| must equal the norm of the twin's update on the same index set, and delta W must be anti-parallel to the Shampoo direction computed from the stored inverse roots. Sampled.",
+    "Trusted: torch.optim as the definition of the grafted methods; block index sets from a public-constructor Distributor; the resolution limit u*|W| of observing an update as W_new-W_old is added to the tolerance.",
+    "DESIGN.md 3 C02",
+)
+CHECKS["C03"] = (
+    "exploration",
+    "runtime monitoring: SOAP runs under basis-validity monitors on the stored state at every refresh and the step-locked rotated-Adam reference",
+    "240 (quick) / 4000 (thorough) SOAP runs (eigh and QR with 1-5 iterations, all dtype pairings incl. bfloat16 parameters with float32 factors, beta2<1 and =1, ignored-dims subsets, grafting on/off, low-rank/sparse gradients, absent gradients). At every refresh: basis orthonormal within C*n*u; eigh (and QR from a zero basis): Q^T L Q diagonal for the factor accumulated in that step; QR: backward-stability check of a single iteration (Q_new^T L Q_old row-permuted upper triangular) and, for several iterations, gap-aware cluster-projector match with the float64 k-fold iteration for some k<=max_iterations on clusters that are insensitive to rounding noise; bases bitwise unchanged off-schedule and for blocks without gradient. Every step: corrected eigenvalues = beta2*old + (1-beta2)*rot(G)^2 in the refreshed basis, direction = rot^-1(rot(g)/(v/bc+eps)^(1/root)), identity rotation while the basis is zero, ignored modes untouched, then the full parameter update as in C01. Sampled.",
+    "Trusted: vf/ref.py, vf/matref.py (float64 QR/eigh); exactly-diagonal factors may yield the identity basis (documented fast path).",
+    "DESIGN.md 3 C03",
+)
